@@ -87,10 +87,6 @@ class Expander:
             return out[:MAX_ALT]
         if isinstance(e, (ast.ListComp, ast.SetComp, ast.GeneratorExp)):
             # keep the shape: elt and iterables expanded, comprehension variables left as they are
-            gens = []
-            for g_ in e.generators:
-                its = self._ex(g_.iter, fi, env, depth, busy)
-                gens.append(ast.comprehension(target=g_.target, iter=its[0], ifs=g_.ifs, is_async=0))
             bound = set()
             for g_ in e.generators:
                 for n in ast.walk(g_.target):
@@ -99,6 +95,12 @@ class Expander:
             env2 = dict(env)
             for b in bound:
                 env2[b] = [ast.Name(id=b, ctx=ast.Load())]
+            gens = []
+            for g_ in e.generators:
+                its = self._ex(g_.iter, fi, env, depth, busy)
+                # the filters are expanded as well (an inlined helper's parameters are replaced by the caller's arguments there too)
+                ifs_ = [self._ex(i_, fi, env2, depth, busy)[0] for i_ in g_.ifs]
+                gens.append(ast.comprehension(target=g_.target, iter=its[0], ifs=ifs_, is_async=0))
             elts = self._ex(e.elt, fi, env2, depth, busy)
             return [type(e)(elt=elts[0], generators=gens)]
         if isinstance(e, ast.JoinedStr):
